@@ -661,7 +661,8 @@ theorem c03_shape_tcp_TCPConn_Send :
 theorem c03_shape_tcp_TCPConn_sendRaw :
     Shapes.network_tcp_TCPConn_sendRaw =
    ["timeoutLock.RLock", "time.Now", "Now().Add", "conn.SetWriteDeadline", "timeoutLock.RUnlock",
-     "Size", "binary.Write", "conn.Write", "c.updateTx", "Size", "c.updateTx"] := rfl
+     "Size", "binary.Write", "c.Close", "conn.Write", "c.Close", "c.updateTx", "Size",
+     "c.updateTx"] := rfl
 
 theorem c03_shape_encoding_Marshal :
     Shapes.network_encoding_Marshal =
